@@ -316,7 +316,7 @@ def c08_jobs(tier, repo):
 
 def c13_jobs(tier, repo):
     _EJ_TIER[0] = tier
-    # the first two configurations reach their fixed point (about 3340 / 920 states) below depth 64; the third
+    # the first two configurations are explored to depth 64 (about 15 500 / 5 000 states); the third
     # (refresh = retry = 1: the clock takes many more values) is explored to a depth
     d = 30 if tier == "quick" else 90
     return [_ej("C13", 64 if tier == "quick" else 200, 3, 2, 600, 1), _ej("C13", 64 if tier == "quick" else 200, 3, 2, 600, 0),
@@ -411,7 +411,8 @@ SPECS["C13"] = CheckSpec(
          "without answer, answer in version 0, one PDU with another version inside a response, End of Data in the other "
          "version's format, answer in version 2, a version-2 Cache Response followed on the same connection by a complete "
          "version-0 answer (which is not 'the first PDU of a connection'), a Serial Notify in another version after the "
-         "Cache Response, timeout} and the event 'Serial Notify in another version while ESTABLISHED', against caches "
+         "Cache Response, No Data Available, Cache Reset (the client drops its session and starts over: the version "
+         "must survive), timeout} and the event 'Serial Notify in another version while ESTABLISHED', against caches "
          "speaking version 1 and version 0; a model "
          "variable v (starts at 1, lowered only by the three rules of the statement) must equal the version byte of "
          "every PDU sent; refused PDUs must be answered with error code 8 before the next query, must not end in "
@@ -855,7 +856,8 @@ SPECS["C11"] = CheckSpec(
     rule="case = (path, NLRI, key table): all paths of 1..3 (thorough 4) hops over pCount {0,1,255} x flags {0,0x80,0xff} "
          "x AS {1,65536,2^32-1} for IPv4 and IPv6, signed by the reference; every NLRI length 0..32 / 0..128; per hop "
          "8 key-table configurations (right key, key only under another AS, wrong + right key, wrong key only, SKI absent, undecodable key alone / before / after the right key) (right key under right AS, right key only under another AS, wrong + right key "
-         "under one SKI, wrong key only, SKI absent) in all combinations; on accepted paths EVERY single-bit flip of "
+         "under one SKI, wrong key only, SKI absent) in all combinations, under three pCount patterns (all 1, all 0, "
+         "0/2 alternating); on accepted paths EVERY single-bit flip of "
          "every signed field (target AS, every pCount / flags / AS, suite, AFI, SAFI, NLRI length and bits, later SKIs, "
          "lengths, every signature bit) and every single-bit flip of every segment's SKI against an unchanged key "
          "table (no key for the near-miss SKI: ROUTER_KEY_NOT_FOUND); all suites != 1, AFIs outside {1,2}, unequal counts, signature lengths "
